@@ -6,13 +6,14 @@ import (
 	"bytes"
 	"errors"
 
-	"github.com/btcsuite/btcd/btcec/v2"
-	"github.com/lightningnetwork/lnd/tlv"
 	"crypto/sha256"
 	"fmt"
+	"github.com/btcsuite/btcd/btcec/v2"
+	"github.com/lightningnetwork/lnd/tlv"
 
 	"github.com/btcsuite/btcd/wire/v2"
 	"github.com/lightningnetwork/lnd/channeldb"
+	"github.com/lightningnetwork/lnd/input"
 	"github.com/lightningnetwork/lnd/lnwallet"
 	"github.com/lightningnetwork/lnd/lnwallet/chainfee"
 	"github.com/lightningnetwork/lnd/lnwire"
@@ -594,6 +595,9 @@ func (s *Sim) DoCut(o CutOpts) (*RetransmitReport, error) {
 		if err != nil {
 			return nil, violationf("%s ChanSyncMsg: %v", sideName(x), err)
 		}
+		if err := s.checkReestablish(x, msg); err != nil {
+			return nil, err
+		}
 		if o.StripDLP[x] {
 			msg.LocalUnrevokedCommitPoint = nil
 			msg.LastRemoteCommitSecret = [32]byte{}
@@ -880,5 +884,66 @@ func (s *Sim) DoFault(kind string, x int) error {
 		s.label("fault_recv_revocation")
 		s.tracef("%s recv revoke with failing DB: %v", side.Name, err)
 	}
+	return nil
+}
+
+// checkReestablish compares the channel_reestablish of x with the model
+// (BOLT-2): next_commitment_number is the number of the next commitment x
+// expects a signature for, next_revocation_number the number of revocations it
+// has received, your_last_per_commitment_secret the last of those, and
+// my_current_per_commitment_point the point of x's current (unrevoked)
+// commitment on x's own derivation chain.
+func (s *Sim) checkReestablish(x int, msg *lnwire.ChannelReestablish) error {
+	m := &s.M
+	y := 1 - x
+	name := sideName(x)
+
+	if want := m.RevsSent[x] + 1; msg.NextLocalCommitHeight != want {
+		return violationf("%s channel_reestablish: "+
+			"next_commitment_number=%d, but it has revoked %d "+
+			"commitments (want %d)", name,
+			msg.NextLocalCommitHeight, m.RevsSent[x], want)
+	}
+	if want := m.RevsDelivered[y]; msg.RemoteCommitTailHeight != want {
+		return violationf("%s channel_reestablish: "+
+			"next_revocation_number=%d, but it has received %d "+
+			"revocations", name, msg.RemoteCommitTailHeight, want)
+	}
+
+	var wantSecret [32]byte
+	if n := m.RevsDelivered[y]; n > 0 {
+		sec, err := s.Sides[y].Chan.State().RevocationProducer.AtIndex(n - 1)
+		if err != nil {
+			return err
+		}
+		wantSecret = *sec
+	}
+	if msg.LastRemoteCommitSecret != wantSecret {
+		return violationf("%s channel_reestablish: "+
+			"your_last_per_commitment_secret is not the secret of "+
+			"the last commitment the peer revoked (#%d)", name,
+			int64(m.RevsDelivered[y])-1)
+	}
+
+	sec, err := s.Sides[x].Chan.State().RevocationProducer.AtIndex(
+		m.RevsSent[x],
+	)
+	if err != nil {
+		return err
+	}
+	wantPoint := input.ComputeCommitmentPoint(sec[:])
+	if msg.LocalUnrevokedCommitPoint == nil ||
+		!msg.LocalUnrevokedCommitPoint.IsEqual(wantPoint) {
+
+		return violationf("%s channel_reestablish: "+
+			"my_current_per_commitment_point is not the point of "+
+			"its current commitment #%d on its own chain", name,
+			m.RevsSent[x])
+	}
+	s.label("reestablish_fields_checked")
+	if m.RevsSent[x] != uint64(len(m.Sigs[x])) {
+		s.label("reestablish_heights_differ")
+	}
+
 	return nil
 }
